@@ -226,7 +226,8 @@ package zygo
 // Data-structure invariant of the symbol tables (shared by an interpreter
 // family): only the listed functions write them.
 //@ typeinv C19 Zlisp | symtable, revsymtable | (*Zlisp).MakeSymbol, NewZlispWithFuncs, (*Zlisp).Clone, (*Zlisp).Duplicate | bij(self)
-//@ macro bij(env *Zlisp) bool = env.symtable != nil && env.revsymtable != nil && forall(n, string, has(env.symtable, n) ==> has(env.revsymtable, env.symtable[n]) && env.revsymtable[env.symtable[n]] == n)
+//@ macro bij(env *Zlisp) bool = env == nil || bijT(env)
+//@ macro bijT(env *Zlisp) bool = env.symtable != nil && env.revsymtable != nil && forall(n, string, has(env.symtable, n) ==> has(env.revsymtable, env.symtable[n]) && env.revsymtable[env.symtable[n]] == n)
 //@ |  && forall(k, int, has(env.revsymtable, k) ==> has(env.symtable, env.revsymtable[k]) && env.symtable[env.revsymtable[k]] == k)
 
 //@ func (*Zlisp).DetectSigils
@@ -368,3 +369,11 @@ package zygo
 // C01  no input can crash the host: panic-freedom sweep outside the builtin recover
 // ===========================================================================
 //@ sweepfile C01 generator.go
+//@ sweepfile C01 parser.go
+//@ sweepfile C01 lexer.go
+//@ sweepfile C01 vm.go
+//@ sweepfile C01 datastack.go
+//@ sweepfile C01 closing.go
+//@ sweepfile C01 scopes.go
+//@ sweepfile C01 address.go
+//@ sweepfile C01 pratt.go
